@@ -305,6 +305,7 @@ def run(ctx):
     included_needs_includer(ctx)
     store_and_split_namespace(ctx)
     locations_differing_in_case(ctx)
+    same_namespace_two_documents(ctx)
     wsdl_then_xsd_imports(ctx)
     same_name_element_and_type(ctx)
     relative_include_shapes(ctx)
@@ -669,6 +670,47 @@ def widen(ctx):
     run(ctx)
 
 
+def same_namespace_in_two_documents():
+    """D53 witness: a schema document pulled in by wsdl:import from another folder, with the target namespace of an
+    inline schema block of the WSDL, xsd:includes a neighbour by a relative location. -> (error or None, fetched)"""
+    XS = "http://www.w3.org/2001/XMLSchema"
+    root = ('<?xml version="1.0"?><wsdl:definitions targetNamespace="urn:w" xmlns:wsdl="%s" xmlns:w="urn:w" xmlns:t="urn:t" '
+            'xmlns:soap="%s"><wsdl:import namespace="urn:t" location="http://docs.invalid/a/sub/types.xsd"/>'
+            '<wsdl:types><xsd:schema xmlns:xsd="%s" targetNamespace="urn:t" elementFormDefault="qualified">'
+            '<xsd:element name="f" type="t:C"/></xsd:schema></wsdl:types>'
+            '<wsdl:message name="fIn"><wsdl:part name="p" element="t:f"/></wsdl:message><wsdl:portType name="PT">'
+            '<wsdl:operation name="f"><wsdl:input message="w:fIn"/></wsdl:operation></wsdl:portType>'
+            '<wsdl:binding name="B" type="w:PT"><soap:binding style="document" '
+            'transport="http://schemas.xmlsoap.org/soap/http"/><wsdl:operation name="f"><soap:operation soapAction="f"/>'
+            '<wsdl:input><soap:body use="literal"/></wsdl:input></wsdl:operation></wsdl:binding><wsdl:service name="S">'
+            '<wsdl:port name="P" binding="w:B"><soap:address location="http://x.invalid/"/></wsdl:port></wsdl:service>'
+            '</wsdl:definitions>' % (IF.WSDLNS, IF.SOAPNS, XS)).encode()
+    types = ('<xsd:schema xmlns:xsd="%s" xmlns:t="urn:t" targetNamespace="urn:t" elementFormDefault="qualified">'
+             '<xsd:include schemaLocation="part.xsd"/><xsd:complexType name="C"><xsd:sequence><xsd:element name="v" '
+             'type="t:D"/></xsd:sequence></xsd:complexType></xsd:schema>' % XS).encode()
+    part = ('<xsd:schema xmlns:xsd="%s" targetNamespace="urn:t" elementFormDefault="qualified"><xsd:simpleType name="D">'
+            '<xsd:restriction base="xsd:int"/></xsd:simpleType></xsd:schema>' % XS).encode()
+    net = {"http://docs.invalid/a/root.wsdl": root, "http://docs.invalid/a/sub/types.xsd": types,
+           "http://docs.invalid/a/sub/part.xsd": part}
+    client, err, store, tr = load("http://docs.invalid/a/root.wsdl", {}, net)
+    if err is None:
+        try:
+            if [k for k, _v in client.factory.create("{urn:t}C")] != ["v"]:
+                err = "type C incomplete"
+        except Exception as e:
+            err = "%s: %s" % (type(e).__name__, e)
+    return err, sorted(str(u) for u in tr.opened), sorted(net)
+
+
+def same_namespace_two_documents(ctx):
+    meta = {"stream": "same-namespace-in-two-documents"}
+    ctx.case(common.canon(meta), True)
+    err, opened, want = same_namespace_in_two_documents()
+    if err is not None or opened != want:
+        ctx.fail("a namespace split over an inline schema and a wsdl:import-ed document with a relative include does "
+                 "not load from the locations the documents name", meta, [err, opened], [None, want])
+
+
 def wsdl_cycle_relative_location():
     """D52 witness: the root carries <types> whose schema imports a RELATIVE location, and wsdl:imports a document in
     another folder that imports the root back; -> the load error, None when it loads."""
@@ -703,6 +745,8 @@ def witness(ctx, k):
         return bool(c2.failures)
     if kind == "wsdl-cycle-base-url":
         return wsdl_cycle_relative_location() is not None
+    if kind == "consolidated-relative-location":
+        return same_namespace_in_two_documents()[0] is not None
     if kind == "wimport-xsd-base-url":
         xsd = (b'<xsd:schema xmlns:xsd="http://www.w3.org/2001/XMLSchema" targetNamespace="urn:t" '
                b'elementFormDefault="qualified"><xsd:include schemaLocation="more.xsd"/></xsd:schema>')
